@@ -234,7 +234,11 @@ CHECKS["C13"] = dict(
           "GetK incl. the k(T) table, element mean, stored flux density, recovered gradient, averages of temperature / gradient / "
           "flux divided by the selected volume with the complex division of the C++; area, volume and the three averages compared "
           "at 4e-15; theorems: flux = conductivity x gradient per component, recovered gradient = gradient, average x volume = "
-          "volume integral). Decided on the real tools for all three physics, planar and "
+          "volume integral); for planar magnetostatics likewise (Model/PostIntM.lean: element flux density, element current density from "
+          "the block source and the circuit record of the solution file, the quadrature PlnInt, DoEnergy of linear materials with the "
+          "three lamination types; A.J, int A, energy, coenergy, area, current, int Bx, int By, volume compared at 4e-15; theorems: PlnInt "
+          "is a symmetric bilinear form and exact for constant densities, energy density = B.H/2 with the solvers' laminated "
+          "permeabilities, element flux density = curl of an affine potential). Decided on the real tools for all three physics, planar and "
           "axisymmetric: additivity over random subsets and orders (1e-15), block area / volume vs the drawn regions and "
           "revolved volumes (1e-15), contour length vs drawn length, electrostatic energy vs half sum V*q (1e-12), "
           "magnetostatic energy vs half int A.J and coenergy (linear laminated materials included); resistive / lamination / total losses "
